@@ -159,6 +159,12 @@ def run(ctx):
         ctx.check(ok, "C17.b", f"{ty}.{ex}:delegates", "delegates to the generic / pandas implementation with dropna (dim, mask) forwarded",
                   "the polars registration does not delegate with its arguments forwarded", fi.where)
     wiring.flatten_order(ctx, "C17.b", m, "flattening:C-order")
+    for ex_ in ("extract_1d_array", "extract_nd_array"):
+        f_ = con.functions[ex_]
+        conv = [c for c in calls_in(f_.node) if call_is(c, "asarray", "array") and c.args and U(c.args[0]) in ("data", f_.params()[0])]
+        ctx.check(len(conv) == 1 and U(kwarg(conv[0], "dtype")) in ("float", "np.float64") and not any(call_is(c, "astype") for c in calls_in(f_.node)), "C17.b",
+                  f"generic.{ex_}:float64", "np.asarray(data, dtype=float): every container is converted to float64, whatever its own element type",
+                  f"conversion: {[U(c)[:50] for c in conv]} - float32 / float16 inputs would keep their precision and get other bin edges than the equivalent list", f_.where)
     wiring.discarded_mask(ctx, "C17.b", m, floor=3)
     wiring.lossy_preallocation(ctx, "C17.b", [con.functions[x] for x in ("extract_1d_array", "extract_weights", "extract_nd_array",
                                "extract_and_concat_arrays")] + [m.func("_facade", x) for x in ("h2", "h3")], "extractors:columns-promoted")
